@@ -34,8 +34,8 @@ TIERS = {
     # emboss derivations, shards (ambiguity is searched among all strings up to the same bound)
     "quick": {"exh": ("NT2", "T2", 2, 2), "samples": [("NT2", "T2", 2, 3, 800), ("NT3", "T3", 3, 4, 200)],
               "n2": 5, "n3": 4, "emboss": 90, "emboss_tokens": 60, "procs": 12, "gen_procs": 3},
-    "thorough": {"exh": ("NT2", "T2", 2, 3), "samples": [("NT3", "T3", 3, 4, 3000), ("NT3", "T3", 3, 5, 3000)],
-                 "n2": 6, "n3": 4, "emboss": 2500, "emboss_tokens": 60, "procs": 14, "gen_procs": 8},
+    "thorough": {"exh": ("NT2", "T2", 2, 3), "samples": [("NT3", "T3", 3, 4, 2000), ("NT3", "T3", 3, 5, 2000)],
+                 "n2": 6, "n3": 4, "emboss": 1500, "emboss_tokens": 60, "procs": 14, "gen_procs": 8},
 }
 
 
@@ -115,6 +115,38 @@ def _report(chk, family, r, by_id):
     chk.violation(key, desc, payload)
 
 
+def _negative_control(chk, sc, cat_cases):
+    """The binding bites: three corrupted copies of a good recording must each be rejected by TLC."""
+    import copy
+    base = next(c for c in cat_cases if c["name"] == "balanced")
+    bad = []
+    c1 = copy.deepcopy(base)          # an error reported one token late
+    r = next(r for r in c1["runs"] if not r["ok"] and r["idx"] < len(r["w"]))
+    r["idx"] += 1
+    r["tok"] = r["w"][r["idx"]] if r["idx"] < len(r["w"]) else "$"
+    c1.update(id=9001, name="control-late-error", runs=[r])
+    c2 = copy.deepcopy(base)          # a tree whose leaves are not the input in order
+    r = next(r for r in c2["runs"] if r["ok"] and len(r["w"]) >= 2)
+    def first_leaf(t):
+        return t if "t" in t else next(first_leaf(c) for c in t["c"] if "t" in c or c["c"])
+    first_leaf(r["tree"])["i"] = 1
+    c2.update(id=9002, name="control-wrong-leaf", runs=[r])
+    c3 = copy.deepcopy(base)          # a sentence recorded as rejected
+    r = next(r for r in c3["runs"] if r["ok"])
+    r.update(ok=False, tree=gc.NO_TREE, idx=len(r["w"]), tok="$", exp=[])
+    c3.update(id=9003, name="control-rejects-sentence", runs=[r])
+    p = sc.file("control.json")
+    dump_json(p, [c1, c2, c3])
+    res = tlc(sc, "LRCases", "control", invariants=["Checked"], env={"CASES_FILE": p}, workers=1, timeout=600)
+    got = {(r["ex"]["id"], r["ex"]["clause"]) for r in res.printed_json() if isinstance(r, dict) and "ex" in r}
+    need = {(9001, "ErrorAtFirstNonViable"), (9001, "DriverConforms"), (9002, "TreeIsDerivation"), (9002, "DriverConforms"),
+            (9003, "AcceptIffDerives"), (9003, "DriverConforms")}
+    if not need <= got:
+        raise MachineryError("negative control: corrupted recordings were not rejected by LRCases: missing %s" % sorted(need - got))
+    chk.extra["selftest_negative_control"] = ("3 corrupted copies of a recorded run (late error index, wrong leaf in tree, sentence "
+                                              "recorded as rejected) are each rejected by TLC: " + ", ".join("%d:%s" % x for x in sorted(got)))
+
+
 def _bound(tier, g):
     nt = len(gc.terminals_of(g))
     if nt <= 2:
@@ -134,6 +166,11 @@ def run(chk, only=None):
         # ---- catalogue: build with the real generator -----------------------------------------
         cat_cases = None
         if want("machine-mc") or want("catalogue"):
+            if chk.tier == "quick":
+                for s in cat_specs:
+                    nt = len(gc.terminals_of(s["g"]))
+                    s["n"] = min(s["n"], 5 if nt <= 2 else 4 if nt == 3 else 3)
+                    s["namb"] = min(s["namb"], s["n"])
             cat_cases = [gc.build_case(s) for s in cat_specs]
 
         if want("machine-mc"):
@@ -142,8 +179,6 @@ def run(chk, only=None):
                 if s["mc"] and not c["gen_exc"]:
                     d = dict(c)
                     d["runs"] = []
-                    if chk.tier == "quick":
-                        d["n"] = min(d["n"], 5 if len(d["terms"]) <= 2 else 4 if len(d["terms"]) == 3 else 3)
                     mc_cases.append(d)
             p = sc.file("mc-cases.json")
             dump_json(p, mc_cases)
@@ -181,6 +216,7 @@ def run(chk, only=None):
                 raise MachineryError("SentenceGen design-level check failed (%s):\n%s" % (res.invariant_violated, res.error_trace_tail()))
 
         if want("catalogue"):
+            _negative_control(chk, sc, cat_cases)
             _validate(chk, sc, "cat", cat_cases, "small-grammar", min(procs, 6), "catalogue")
             chk.extra["catalogue"] = [{"name": c["name"], "states": len(c["tables"]["states"]), "conflicts": len(c["conflicts"]),
                                        "strings": len(c["runs"]), "accepted": sum(1 for r in c["runs"] if r["ok"]),
@@ -300,4 +336,20 @@ def _emboss(chk, sc, tier, procs):
 
 
 def replay(chk, path):
-    run(chk)
+    """Re-run one recorded violation: same grammar, same token string, through the real code and LRCases."""
+    with open(path) as f:
+        rp = json.load(f)
+    case = rp.get("case") or {}
+    g, w = case.get("grammar"), case.get("w")
+    if not isinstance(g, dict) or w is None:
+        if str(rp.get("key", "")).startswith("emboss-grammar") and w is not None:
+            g = grammar_gen.emboss_grammar()
+        else:
+            return run(chk)
+    big = len(g["prods"]) > 50
+    spec = {"id": 1, "name": "replay", "g": g, "n": len(w), "namb": -1 if big else len(w), "expect": "", "strings": [w],
+            "fuel": 40000 if big else 500}
+    with Scratch("c08-replay") as sc:
+        c = gc.build_case(spec)
+        c["cert"] = big
+        _validate(chk, sc, "replay", [c], "emboss-grammar" if big else "small-grammar", 1, "replay")
